@@ -80,6 +80,7 @@ def set_header(inst, h):
 def build(j):
     """python instance from the JSON description (attributes set directly)"""
     from preflibtools.instances import OrdinalInstance, CategoricalInstance, MatchingInstance
+    from preflibtools.instances.preflibinstance.matching import WeightedDiGraph
     cls = j["cls"]
     if cls == "ord":
         i = OrdinalInstance()
@@ -99,8 +100,25 @@ def build(j):
     else:
         i = MatchingInstance()
         set_header(i, j["header"])
-        for (a, b), w in j["weights"]:
-            i.add_edge(int(a), int(b), float(w))
+        hist = j.get("history")
+        final = {}
+        for a, b, w in hist or []:
+            final[(a, b)] = w
+        if hist and final == {(a, b): w for (a, b), w in j["weights"]}:
+            # the add_edge calls as they were made (overwrites included), with the graph API queried in
+            # between at the recorded points: a query must not change what later calls do
+            peeks = set(j.get("peeks", []))
+            for k, (a, b, w) in enumerate(hist):
+                i.add_edge(int(a), int(b), float(w))
+                if k in peeks:
+                    i.edges()
+                    WeightedDiGraph.__str__(i)
+                    for n in list(i.nodes()):
+                        i.outgoing_edges(n)
+                        i.neighbours(n)
+        else:
+            for (a, b), w in j["weights"]:
+                i.add_edge(int(a), int(b), float(w))
         for n, _ in j["nodes"]:
             i.add_node(int(n))
         i.num_edges = j["num_edges"]
@@ -131,7 +149,11 @@ def describe(inst):
                 "multiplicity": [[[list(c) for c in b], m] for b, m in inst.multiplicity.items()]}
     return {"cls": "mat", "header": header_of(inst), "num_edges": inst.num_edges,
             "nodes": [[k, sorted(v)] for k, v in inst.node_mapping.items()],
-            "weights": [[[a, b], repr(float(w))] for (a, b), w in inst.weights.items()]}
+            "weights": [[[a, b], repr(float(w))] for (a, b), w in inst.weights.items()],
+            # the same graph through its public API
+            "edges_api": [[a, b, repr(float(w))] for a, b, w in inst.edges()],
+            "out_api": [[a, b, repr(float(w))] for n in inst.nodes() for a, b, w in inst.outgoing_edges(n)],
+            "nodes_api": list(inst.nodes())}
 
 
 def canon(d):
@@ -153,6 +175,10 @@ def canon(d):
     else:
         c.update(num_edges=d["num_edges"], nodes=sorted((n, tuple(sorted(s))) for n, s in d["nodes"]),
                  weights=sorted((tuple(e), w) for e, w in d["weights"]))
+        flat = [[e[0], e[1], w] for e, w in d["weights"]]
+        c["edges_api"] = sorted(map(tuple, d.get("edges_api", flat)))
+        c["out_api"] = sorted(map(tuple, d.get("out_api", flat)))
+        c["nodes_api"] = sorted(d.get("nodes_api", [n for n, _ in d["nodes"]]))
     return c
 
 
@@ -304,13 +330,17 @@ def gen_matching(rng):
         if n not in [x[0] for x in nodes]:
             nodes.append([n, []])
 
+    history = []
     for _ in range(rng.randint(1, 10)):
         a, b = rng.choice(alts), rng.choice(alts)
         if rng.random() < 0.15:
             b = a
+        if history and rng.random() < 0.2:
+            a, b = rng.choice(history)[:2]          # overwrite an existing edge
         add_node(a)
         add_node(b)
         w = repr(gen_weight(rng))
+        history.append([a, b, w])
         for x in nodes:
             if x[0] == a and b not in x[1]:
                 x[1].append(b)
@@ -326,4 +356,6 @@ def gen_matching(rng):
     h["num_alternatives"] = m
     h["num_voters"] = m
     h["alternatives_name"] = alt_names(rng, alts)
-    return {"cls": "mat", "header": h, "num_edges": len(weights), "nodes": nodes, "weights": weights}
+    peeks = [k for k in range(len(history)) if rng.random() < 0.3]
+    return {"cls": "mat", "header": h, "num_edges": len(weights), "nodes": nodes, "weights": weights,
+            "history": history, "peeks": peeks}
